@@ -153,6 +153,9 @@ def run_agree(case, rec):
     pars, pd = request(i, rng, case["seed"]*19 + k, dim)
     if pd.pop("__onlimit__", 0) is None:
         rec.bucket("value-exactly-on-declared-limit")
+    # (a shell count drawn on its lower limit leaves vector elements without a shell: no distribution is requested on those)
+    for n_ in [n_ for n_ in pd if n_ not in sas.active_names(i, pars)]:
+        del pd[n_]
     cutoff = [0.0, 0.0, 1e-4][k % 3]
     size = sas.size_scale(i, pars)
     if dim == "1d":
@@ -199,6 +202,8 @@ def run_agree(case, rec):
     if control:
         rec.bucket("multiplicity")
     arr = sorted(pd)[0] if (pd and k % 2 == 0) else None
+    if arr is not None and arr not in sas.active_names(i, pars):
+        arr = None          # (an element beyond the shell count: the SasView object does not have it)
     rows = "most-probable-first" if (arr and (k//2 + len(name)) % 2 == 1) else None
     if arr:
         rec.bucket("array_distribution", "array_rows:" + (rows or "ascending"))
